@@ -20,7 +20,8 @@ using stir::shared_ptr;
 // A cylindrical user-defined scanner with ndet detectors per ring (even), nrings rings.
 // tof_bins > 0 gives a TOF-capable scanner with that many timing positions.
 inline shared_ptr<stir::Scanner>
-make_scanner(int ndet, int nrings, int tof_bins = 0, float radius = -1.f, float ring_spacing = 4.f, float bin_size = -1.f)
+make_scanner(int ndet, int nrings, int tof_bins = 0, float radius = -1.f, float ring_spacing = 4.f, float bin_size = -1.f,
+             float tof_bin_ps = 400.f, float tof_resolution_ps = 500.f)
 {
   using stir::Scanner;
   // small ring whose central bin size matches the default voxel size, so that an image of ~8 voxels across is crossed
@@ -44,8 +45,8 @@ make_scanner(int ndet, int nrings, int tof_bins = 0, float radius = -1.f, float 
                                     /*energy resolution*/ 0.15f,
                                     /*reference energy*/ 511.f,
                                     (short)(tof_bins > 0 ? tof_bins : -1),
-                                    tof_bins > 0 ? 400.f : -1.f,
-                                    tof_bins > 0 ? 500.f : -1.f));
+                                    tof_bins > 0 ? tof_bin_ps : -1.f,
+                                    tof_bins > 0 ? tof_resolution_ps : -1.f));
   return s;
 }
 
